@@ -84,7 +84,7 @@ Print Assumptions C11_normal_end_only_on_sorted_inputs.
 
 (* ---------------- non-vacuity ---------------- *)
 Definition R_ (i : Z) (t n chr : N) (s e : Z) : orec :=
-  {| rid := i; rtruthy := true; rtumor := [t]; rnormal := [n]; rchr := [99; 104; 114; chr]%N;
+  {| rid := i; rtruthy := true; rtumor := Some [t]; rnormal := Some [n]; rchr := [99; 104; 114; chr]%N;
      rstart := s; rend := e; oref := []; oalts := [] |}.
 (* contigs chr1, chr2, chr9<-"chr:" ... : use the characters '1' '2' ':' so that the
    supplied order (1, 2, :) differs from nothing lexically but '2' < ':' ; a
@@ -209,3 +209,17 @@ Proof.
   destruct H1 as (_ & [[Hc|(_ & [Hlt|(Heq & _)])]|(_ & Heq & _)] & _); simpl in *; try lia.
   vm_compute in Hc. discriminate.
 Qed.
+
+(* Observation on the unchanged library (outside the quantifier of C11, which is
+   over intervals): a MafRecord with zero columns - what a malformed line becomes
+   under Silent/Lenient - is false; the iterator takes `if rec:` for exhaustion,
+   so the rest of that input (record 2 here) is silently never emitted while the
+   run ends normally.  The false record is given a key that is in order. *)
+Definition F_ (i : Z) : orec :=
+  {| rid := i; rtruthy := false; rtumor := None; rnormal := None; rchr := [255%N];
+     rstart := 0; rend := 0; oref := []; oalts := [] |}.
+Example demo_false_record_ends_its_input :
+  ids (o_overlap_iter (cfg_none false)
+         [[R_ 0 84 78 49 1 2; F_ 1; R_ 2 84 78 49 8 9]; [R_ 3 84 78 49 20 21]])
+  = [[[0]; []]; [[]; [3]]].
+Proof. vm_compute. reflexivity. Qed.
